@@ -5,6 +5,7 @@ import (
 
 	"github.com/scottyw/tetromino/gameboy/timer"
 	"verifmc/explore"
+	"verifmc/machine"
 	"verifmc/ref"
 )
 
@@ -310,6 +311,87 @@ func c12OverflowTicks(s c12Start, ticks int) []int {
 	return out
 }
 
+// c12Bus: the timer registers as the guest sees them — through Mapper.Read / Mapper.Write at FF04-FF07 — against the
+// timer's own read methods and the reference, one write and 300 ticks per case: the bus wiring belongs to the
+// property ("DIV/TIMA/TMA/TAC read-back") as much as the timer's state machine does.
+type c12Bus struct {
+	Reg uint16 `json:"reg"`
+	Val uint8  `json:"val"`
+}
+
+func c12BusCheck(l *explore.Local, _ struct{}, c c12Bus) *explore.Fail {
+	m := machine.New(machine.ROMOnly(), machine.Opts{})
+	mod := ref.NewTimer(m.T.VGet().Counter)
+	w := func(a uint16, v uint8) {
+		m.Map.Write(a, v)
+		switch a {
+		case 0xff04:
+			mod.WriteDIV()
+		case 0xff05:
+			mod.WriteTIMA(v)
+		case 0xff06:
+			mod.WriteTMA(v)
+		case 0xff07:
+			mod.WriteTAC(v)
+		}
+	}
+	cmp := func(when string) *explore.Fail {
+		for _, r := range []struct {
+			a    uint16
+			name string
+			own  uint8
+			want uint8
+			ok   bool
+		}{{0xff04, "DIV", m.T.ReadDIV(), mod.ReadDIV(), true}, {0xff05, "TIMA", m.T.ReadTIMA(), mod.Tima, mod.TIMAOk(m.T.ReadTIMA())},
+			{0xff06, "TMA", m.T.ReadTMA(), mod.ReadTMA(), true}, {0xff07, "TAC", m.T.ReadTAC(), mod.ReadTAC(), true}} {
+			got := m.Map.Read(r.a)
+			if got != r.own {
+				return explore.Failf("bus: "+r.name+" read through the Mapper differs from the timer's register", "%s: %04x reads %02x on the bus, the timer holds %02x (after %04x<-%02x)", when, r.a, got, r.own, c.Reg, c.Val)
+			}
+			if r.name != "TIMA" && got != r.want || r.name == "TIMA" && !r.ok {
+				return explore.Failf("bus: "+r.name+" wrong", "%s: %04x reads %02x, documented %02x (after %04x<-%02x)", when, r.a, got, r.want, c.Reg, c.Val)
+			}
+		}
+		return nil
+	}
+	w(0xff06, 0x23)
+	w(0xff05, 0xf8)
+	w(0xff07, 0x05)
+	if f := cmp("after the setup writes"); f != nil {
+		return f
+	}
+	for i := 0; i < 40; i++ {
+		irq := m.T.EndMachineCycle()
+		mod.Tick(irq)
+		if f := cmp(fmt.Sprintf("%d cycles after the setup", i+1)); f != nil {
+			return f
+		}
+	}
+	w(c.Reg, c.Val)
+	if mod.Unspec {
+		return nil
+	}
+	if f := cmp("right after the write"); f != nil {
+		return f
+	}
+	for i := 0; i < 300; i++ {
+		irq := m.T.EndMachineCycle()
+		if ok, why := mod.Tick(irq); !ok {
+			return explore.Failf("bus: irq: "+why, "%d cycles after %04x<-%02x", i+1, c.Reg, c.Val)
+		}
+		if mod.Unspec {
+			return nil
+		}
+		if f := cmp(fmt.Sprintf("%d cycles after the write", i+1)); f != nil {
+			return f
+		}
+		l.Trans(1)
+	}
+	l.Eval(1)
+	l.Outcome(uint64(c.Reg)<<8 | uint64(c.Val))
+	return nil
+}
+
 func init() {
 	register("C12", "model_checking", func(c *Ctx) {
 		if c.R != nil {
@@ -391,6 +473,16 @@ func init() {
 		// every data value: the enumerations above use three TIMA/TMA write values; here one overflow and reload is run
 		// for every TMA value x every value written to TIMA or TMA in the overflow cycle, in the reload cycle and right after
 		// TAC written with its unused bits set (what a read-modify-write stores: TAC reads F8 | value): only bits 0-2 count
+		explore.Product(c.R, "registers-through-the-bus", explore.PartOpt{Bound: "setup, 40 ticks, one write, 300 ticks; all four registers read through the Mapper after every tick", Domain: "FF04-FF07 x all 256 values"},
+			func(yield func(c12Bus) bool) {
+				for a := uint16(0xff04); a <= 0xff07; a++ {
+					for v := 0; v < 256; v++ {
+						if !yield(c12Bus{Reg: a, Val: uint8(v)}) {
+							return
+						}
+					}
+				}
+			}, func() struct{} { return struct{}{} }, c12BusCheck)
 		explore.Product(c.R, "tac-with-unused-bits", explore.PartOpt{Bound: "two TAC writes, 80 ticks after each, every step compared", Domain: "first value v | F8, second value w | 08 or w | 80, v, w in 0-7, from two counter phases"},
 			func(yield func(c12Case) bool) {
 				for _, cnt := range []uint16{0x0000, 0xffb0} {
